@@ -44,12 +44,12 @@ Arrows(eps, app, ss, inprog) ==
 \* the arrows of the diagram that starts at (a, e), the entry arrow first; cut = the blackboxed endpoints
 Want(eps, a, e, cut) == << <<"[", a, e>> >> \o Arrows(eps, a, Body(eps, a, e), {<<a, e>>} \cup cut)
 
-\* a diagram with several starting endpoints draws them one after the other; while one is drawn, the ones still to
-\* come are shown but not expanded ("see below"); the ones already drawn are ordinary endpoints again
+\* a diagram with several starting endpoints draws them one after the other, each as it would be drawn alone (a call to
+\* one of the other starting endpoints carries a note "see below", and is expanded all the same)
 RECURSIVE WantEach(_, _, _)
 WantEach(eps, todo, cut) ==
   IF todo = <<>> THEN <<>>
-  ELSE Want(eps, todo[1][1], todo[1][2], cut \cup {todo[i] : i \in 2..Len(todo)}) \o WantEach(eps, Tail(todo), cut)
+  ELSE Want(eps, todo[1][1], todo[1][2], cut) \o WantEach(eps, Tail(todo), cut)
 WantMany(eps, starts, cut) == WantEach(eps, starts, cut)
 
 -----------------------------------------------------------------------------
